@@ -451,6 +451,23 @@ class MSeries:
     def astype(self, t):
         return self.copy()
 
+    def where(self, cond, other=None):
+        cv = cond.values if isinstance(cond, MSeries) else [cond] * len(self.values)
+        return MSeries([v if c else other for v, c in zip(self.values, cv)], self.index, self.name)
+
+    # pandas' augmented assignments mutate the series in place
+    def _inplace(self, o, op):
+        r = self._elementwise(o, op)
+        self.values = r.values
+        self.index = r.index
+        return self
+
+    def __iadd__(self, o):
+        return self._inplace(o, lambda x, y: x + y)
+
+    def __isub__(self, o):
+        return self._inplace(o, lambda x, y: x - y)
+
     # -- cumulative / rolling
     def _cum(self, f):
         out, acc = [], None
@@ -648,8 +665,18 @@ class MFrame:
     def merge(self, *a, **k):
         raise NotImplementedError
 
+    def _reduce_cols(self, f):
+        cols = list(self.cols)
+        return MSeries([f(MSeries(self.cols[c])) for c in cols], MIndex(cols))
+
+    def sum(self):
+        return self._reduce_cols(lambda s: s.sum())
+
+    def count(self):
+        return self._reduce_cols(lambda s: s.count())
+
     def mean(self):
-        raise NotImplementedError
+        return self._reduce_cols(lambda s: s.mean())
 
     def groupby(self, grouper):
         return MGroupBy(self, grouper)
